@@ -376,7 +376,7 @@ def pipeline_groups(case, delay_ms=0.0, extra=None):
 def build_objects(case, delay_ms=0.0, extra=None):
     import pyx
 
-    det = pyx.make_detector("CCD", 3, 4)
+    det = pyx.make_detector(case.get("detector_kind", "CCD"), 3, 4)
     apply_det_overrides(det, case)
     pipe = pyx.make_pipeline(pipeline_groups(case, delay_ms, extra))
     return det, pipe
@@ -641,7 +641,8 @@ def run_impl(case, scheduler="synchronous", num_workers=None, delay_ms=0.0, with
                 from pyxel.outputs import ObservationOutputs
 
                 outputs = ObservationOutputs(output_folder=outputs_dir, save_data_to_file=[{"detector.pixel.array": ["npy"]}])
-            if case.get("construction") == "yaml" and outputs is None and pipeline_seed is None:
+            if case.get("construction") == "yaml" and outputs is None and pipeline_seed is None \
+                    and case.get("detector_kind", "CCD") == "CCD":
                 obs, det, pipe = build_from_yaml(case, tmp, with_dask=with_dask, delay_ms=delay_ms, extra=extra)
             else:
                 det, pipe = build_objects(case, delay_ms, extra)
@@ -730,7 +731,24 @@ def run_history(cases, parallel, in_place=False):
 
 
 # ------------------------------------------------------------------ Lean side
+def step_facts(case):
+    """what `validate_steps` looks at, read off the generated configuration: [enabled, has key, model on, placeholder]"""
+    on = {(m["group"], m["name"]): m.get("enabled", True) for m in case["models"]}
+    out = []
+    for p in case["params"]:
+        parts = p["key"].split(".")
+        model_on = on.get((parts[1], parts[2]), True) if parts[0] == "pipeline" else True
+        out.append([bool(p["enabled"]), not p.get("missing_key", False), bool(model_on), case["mode"] == "custom"])
+    return out
+
+
 def lean_request(case):
+    req = _lean_request(case)
+    req["facts"] = step_facts(case)
+    return req
+
+
+def _lean_request(case):
     if case["mode"] == "custom":
         return {"op": "custom", "ncols": len(case["table"][0]) if case["table"] else 0,
                 "rows": [[ctext(x) for x in r] for r in case["table"]],
@@ -896,7 +914,7 @@ def check_wide_adc(ck, rng, mode, parallel):
     impl = run_impl(case, with_dask=parallel, extra=extra, extra_slots=0, with_image=True)
     ck.case({"wide_adc": case, "parallel": parallel}, nontrivial="error" not in impl, stream="wide-adc")
     ck.count(f"wide-adc:{mode}:{'dask' if parallel else 'seq'}:{'swept' if swept else 'fixed'}")
-    tag = f"{mode}:{'dask' if parallel else 'seq'}:wide-adc"
+    tag = f"{'dask' if parallel else 'seq'}:wide-adc"
     if "error" in impl:
         ck.violation(f"C05:{tag}:run-fails", f"observation over a valid parameter space fails: {impl['msg']}",
                      {"wide_adc": case, "parallel": parallel})
@@ -921,6 +939,13 @@ def stable_key(why_key: str) -> str:
 
 def check_case(ck, case, ans, stream, parallel, impl=None, history=None):
     impl = impl if impl is not None else run_impl(case, with_dask=parallel)
+    if case.get("invalid"):
+        # a parameter space pyxel must refuse before any run: only model vs implementation (kind of refusal)
+        got = impl.get("error", "ok")
+        if got != ans.get("valid", "ok"):
+            ck.disagreement(stream + "-validation", case, got, ans.get("valid", "ok"))
+        ck.count(f"invalid-space:{case['invalid']}:{got}")
+        return impl
     model = model_entries(case, ans, parallel)
     why = property_predicate(case, impl, parallel)
     if why is not None:
@@ -969,6 +994,18 @@ def body(ck: common.Check):
         for wd in (False, True):
             for flav in ("plain", "fine", "vectors", "off_model", "two_models_same_arg", "same_model_two_groups", "field_vs_arg"):
                 cases.append(("directed", gen_case(rng, mode=mode, with_dask=wd, flavour=flav, max_runs=8)))
+    # spaces that must be refused: an ENABLED parameter on a switched-off model / on a key that does not exist
+    for kind in ("enabled-on-off-model", "missing-key"):
+        c = gen_case(rng, mode="product" if kind == "missing-key" else rng.choice(["product", "sequential"]),
+                     with_dask=rng.random() < 0.5, flavour="off_model")
+        c["construction"] = "python"
+        if kind == "enabled-on-off-model":
+            next(p for p in c["params"] if p.get("on_disabled_model"))["enabled"] = True
+        else:
+            c["params"].append({"key": "pipeline.photon_collection.nosuchmodel.arguments.a", "decl": [1, 2], "expect": [1, 2],
+                                "enabled": True, "multi": False, "missing_key": True})
+        c["invalid"] = kind
+        cases.append(("invalid", c))
     # integer buckets wider than a double's mantissa (both paths, product and sequential mode)
     for mode, wd in [("product", True), ("sequential", True), ("product", False)] + \
             [(rng.choice(["product", "sequential"]), rng.random() < 0.7) for _ in range(0 if quick else 30)]:
@@ -995,8 +1032,8 @@ def body(ck: common.Check):
             raise common.InfraError(f"driver rejected request: {ans}")
         parallel = case["with_dask"]
         check_case(ck, case, ans, stream, parallel)
-        nr = n_runs(case)
-        ck.case(case, nontrivial=nr >= 2, stream=stream)
+        nr = 0 if case.get("invalid") else n_runs(case)
+        ck.case(case, nontrivial=nr >= 2 or bool(case.get("invalid")), stream=stream)
         ck.count(f"mode={case['mode']}")
         ck.count(f"path={'dask' if parallel else 'sequential'}")
         ck.count(f"flavour={case['flavour']}")
